@@ -94,9 +94,9 @@ func runStress(dir string, rounds, n int) (crash string, done bool) {
 
 // runDoubleClose: 64 calls pending on a stalled child, kill -9 of the child and Close() at once (in a re-executed copy).
 func runDoubleClose(c *hk.Ctx) {
-	rounds := 6
+	rounds := 60
 	if c.Thorough() {
-		rounds = 40
+		rounds = 300
 	}
 	crash, done := runStress(c.Dir, rounds, 64)
 	out := "err"
